@@ -144,6 +144,7 @@ type c16hit struct {
 	phase    []string // before-next | after-next | handler
 	mws      []string
 	mwVars   []map[string]string
+	again    []map[string]string // what further Vars calls by the same handler returned
 }
 
 func init() { engine.Register("C16", runC16) }
@@ -296,6 +297,9 @@ func runC16(t *verifsim.Tape, cfg engine.Config) *engine.Outcome {
 		addMW()
 		history = append(history, "use")
 	}
+	// a handler may ask for its variables more than once (goa's Debug middleware mounted on a handler reads them,
+	// then the generated decoder reads them again)
+	varsCalls := t.Pick("handler-vars-calls", 3, 2, 1)
 	var regPanic any
 	func() {
 		defer func() { regPanic = recover() }()
@@ -305,6 +309,9 @@ func runC16(t *verifsim.Tape, cfg engine.Config) *engine.Outcome {
 				if cur != nil {
 					cur.handler = i
 					cur.vars = mux.Vars(r)
+					for k := 0; k < varsCalls; k++ {
+						cur.again = append(cur.again, mux.Vars(r))
+					}
 					cur.resolved = append(cur.resolved, mux.ResolvePattern(r))
 					cur.phase = append(cur.phase, "handler")
 				}
@@ -538,6 +545,15 @@ func runC16(t *verifsim.Tape, cfg engine.Config) *engine.Outcome {
 				for k, v := range ref {
 					if gv := got[k]; gv != v {
 						o.Violate("vars_mismatch", varSig(ref, got)+","+ctxNote, "%s %s (pattern %q): Vars[%s]=%q, client put %q", method, path, pats[hit.handler].Text, k, gv, v)
+						break
+					}
+				}
+			}
+			for _, av := range hit.again {
+				o.Features["repeated_vars_checked"]++
+				for k, v := range ref {
+					if gv := av[k]; gv != v {
+						o.Violate("vars_mismatch", varSig(ref, av)+",repeated-call", "%s %s (pattern %q): Vars[%s]=%q when the handler asks again, client put %q", method, path, pats[hit.handler].Text, k, gv, v)
 						break
 					}
 				}
